@@ -1,9 +1,11 @@
 (* C12_Props.v — the property theorems of C12 and nothing else.
    Each is closed by `exact <lemma>` and followed by Print Assumptions.
-   Vocabulary: C12_Spec (deviates, aspect_of, expected_feedback, seen_before, connect_grammar,
-   grpc_timeout_is, timeout_is, float_quot_ok); `checks fq calls request` is the model of
-   referenceServerChecks, fq the float64 conversion of package time (any function satisfying
-   float_quot_ok; the extracted model and the differential run use the exact quotient). *)
+   Vocabulary: C12_Spec (deviates, aspect_of, expected_feedback, seen_before, begun_before, written,
+   handler_version, connect_grammar, grpc_timeout_is, timeout_is, float_quot_ok); `checks fq calls request`
+   is the model of referenceServerChecks (= `enter`, the wrapped handler, `leave`), `server fq calls
+   procedure request` the model of the handler chain createServer builds around it (reference mode),
+   `run_events` the model of overlapping requests; fq is the float64 conversion of package time (any
+   function satisfying float_quot_ok; the extracted model and the differential run use the exact quotient). *)
 From Coq Require Import Lia.
 From V Require Import C12_Spec C12_Proofs.
 Open Scope Z_scope.
@@ -18,25 +20,65 @@ Theorem matrix_feedback_exact : forall fq name (e : axes) (a : actual), name <> 
 Proof. exact matrix_feedback_exact_proof. Qed.
 Print Assumptions matrix_feedback_exact.
 
-(* silent exactly on matching pairs *)
-Theorem silent_iff_match : forall fq name (e : axes) (a : actual), name <> [] ->
-  feedback_of (snd (checks fq [] (with_expect name e (render a)))) = [] <-> project a = e.
-Proof. exact silent_iff_match_proof. Qed.
+(* ---- the assembled server: five procedures, the HTTP/1.1-bidi workaround, the checks, the RPC handler ---- *)
+
+(* through the handler chain of createServer, for every procedure: the same exact feedback; the RPC handler
+   gets the request unchanged except that it is told `handler_version` (HTTP/2 for BidiStream over HTTP/1.1) *)
+Theorem server_feedback_exact : forall fq name (e : axes) (a : actual) (p : procedure), name <> [] ->
+  server fq [] p (with_expect name e (render a)) =
+  ([(name, 1)], Served name (expected_feedback e (project a)) None
+                       (set_proto_major (with_expect name e (render a)) (handler_version p (version_num (c_version a))))).
+Proof. exact server_feedback_exact_proof. Qed.
+Print Assumptions server_feedback_exact.
+
+(* silent exactly on matching pairs - for all five procedures, with NO exemption: the documented exemption
+   (C12_Spec 2b) is about what the RPC handler is told, and the unchanged code applies it after the checks,
+   so BidiStream over HTTP/1.1 is silent iff HTTP/1.1 was announced (and everything else matches) *)
+Theorem silent_iff_match : forall fq name (e : axes) (a : actual) (p : procedure), name <> [] ->
+  feedback_of (snd (server fq [] p (with_expect name e (render a)))) = [] <-> project a = e.
+Proof. exact server_silent_iff_match_proof. Qed.
 Print Assumptions silent_iff_match.
 
 (* an aspect deviates exactly when a line about that aspect is written ... *)
-Theorem names_each_aspect : forall fq name (e : axes) (a : actual), name <> [] -> forall A,
+Theorem names_each_aspect : forall fq name (e : axes) (a : actual) (p : procedure), name <> [] -> forall A,
   deviates A e (project a) <->
-  exists k, In k (feedback_of (snd (checks fq [] (with_expect name e (render a))))) /\ aspect_of k = Some A.
-Proof. exact names_each_aspect_proof. Qed.
+  exists k, In k (feedback_of (snd (server fq [] p (with_expect name e (render a))))) /\ aspect_of k = Some A.
+Proof. exact server_names_each_aspect_proof. Qed.
 Print Assumptions names_each_aspect.
 
 (* ... and nothing else is written *)
-Theorem only_deviations_named : forall fq name (e : axes) (a : actual), name <> [] -> forall k,
-  In k (feedback_of (snd (checks fq [] (with_expect name e (render a))))) ->
+Theorem only_deviations_named : forall fq name (e : axes) (a : actual) (p : procedure), name <> [] -> forall k,
+  In k (feedback_of (snd (server fq [] p (with_expect name e (render a))))) ->
   exists A, aspect_of k = Some A /\ deviates A e (project a).
-Proof. exact only_deviations_named_proof. Qed.
+Proof. exact server_only_deviations_named_proof. Qed.
 Print Assumptions only_deviations_named.
+
+(* the scope of the exemption, for ANY request and history: the procedure has no influence on counters,
+   feedback, timeout; the RPC handler's request differs from the checked one in the HTTP version only *)
+Theorem bidi_exemption_scope : forall fq c p r,
+  fst (server fq c p r) = fst (checks fq c r) /\
+  match snd (checks fq c r) with
+  | Rejected => snd (server fq c p r) = Rejected
+  | Served n f t r' => snd (server fq c p r) = Served n f t (set_proto_major r' (handler_version p (proto_major r)))
+  end.
+Proof. exact bidi_exemption_scope_proof. Qed.
+Print Assumptions bidi_exemption_scope.
+
+(* what the workaround is for: no served request is refused by the RPC handler because of its HTTP version *)
+Theorem bidi_served_over_http1 : forall fq c p r n f t seen,
+  1 <= proto_major r -> snd (server fq c p r) = Served n f t seen -> handler_refuses p seen = false.
+Proof. exact bidi_served_over_http1_proof. Qed.
+Print Assumptions bidi_served_over_http1.
+
+(* the order of composition is essential: with the workaround applied BEFORE the checks a matching
+   BidiStream-over-HTTP/1.1 request is flagged and a deviating one is not *)
+Theorem workaround_outside_refuted : forall fq,
+  (exists e a, project a = e /\
+     feedback_of (snd (checks fq [] (bidi_workaround ProcBidiStream (with_expect (lit "t") e (render a))))) <> []) /\
+  (exists e a, project a <> e /\
+     feedback_of (snd (checks fq [] (bidi_workaround ProcBidiStream (with_expect (lit "t") e (render a))))) = []).
+Proof. exact workaround_outside_refuted_proof. Qed.
+Print Assumptions workaround_outside_refuted.
 
 (* ---- arbitrary requests, arbitrary histories ---- *)
 
@@ -48,14 +90,38 @@ Theorem no_name_rejected : forall fq c r,
 Proof. exact no_name_rejected_proof. Qed.
 Print Assumptions no_name_rejected.
 
-(* after any history on one handler, a request is flagged as repeat #m exactly when its test was
-   seen before, m being one more than the number of earlier requests of that test *)
+(* overlapping requests: after ANY history of BEGIN and END events on one handler (requests of the same and of
+   other tests beginning and ending in any interleaving), a beginning request is flagged as repeat #m exactly
+   when a request of the same test BEGAN before it - whether or not that one has ended -, m being one more
+   than the number of such earlier requests *)
 Theorem repeat_flagged : forall fq history r later m,
+  name_of r <> [] ->
+  In (KRepeat m) (written (nth (length history) (run_events fq h_init (history ++ EvBegin r :: later)) OIdle)) <->
+  0 < begun_before (name_of r) history /\ m = begun_before (name_of r) history + 1.
+Proof. exact repeat_flagged_proof. Qed.
+Print Assumptions repeat_flagged.
+
+(* when a request ends, nothing but its trailers line is written (in particular no repeat line) *)
+Theorem end_writes_trailers_only : forall fq history i later k,
+  In k (written (nth (length history) (run_events fq h_init (history ++ EvEnd i :: later)) OIdle)) ->
+  exists n, k = KTrailers n /\ 0 < n.
+Proof. exact end_writes_trailers_only_proof. Qed.
+Print Assumptions end_writes_trailers_only.
+
+(* a request that begins and ends with nothing in between writes exactly what `checks` says ... *)
+Theorem begin_end_is_checks : forall fq s r,
+  concat (map written (run_events fq s [EvBegin r; EvEnd (length (h_open s))])) =
+  feedback_of (snd (checks fq (h_calls s) r)).
+Proof. exact begin_end_is_checks_proof. Qed.
+Print Assumptions begin_end_is_checks.
+
+(* ... so that for sequential histories: repeat #m iff the test was seen before, m = earlier requests + 1 *)
+Theorem repeat_flagged_sequential : forall fq history r later m,
   name_of r <> [] ->
   In (KRepeat m) (feedback_of (nth (length history) (run_seq fq [] (history ++ r :: later)) Rejected)) <->
   0 < seen_before (name_of r) history /\ m = seen_before (name_of r) history + 1.
-Proof. exact repeat_flagged_proof. Qed.
-Print Assumptions repeat_flagged.
+Proof. exact repeat_flagged_sequential_proof. Qed.
+Print Assumptions repeat_flagged_sequential.
 
 (* request trailers are flagged, with their number, and only they *)
 Theorem trailers_flagged : forall fq c r n,
@@ -164,3 +230,23 @@ Example ex_repeat :
   map feedback_of (run_seq Z.quot [] [r (bs "a"); r (bs "b"); r (bs "a"); r (bs "a")]) =
   [[]; []; [KRepeat 2]; [KRepeat 3]].
 Proof. vm_compute. reflexivity. Qed.
+(* overlapping requests: the second `a` begins while the first is in flight, the third after both ended *)
+Example ex_overlap :
+  let r n := with_expect n ex_setup (render (ex_client GrpcPost ZGzip TlsCert)) in
+  map written (run_events Z.quot h_init
+    [EvBegin (r (bs "a")); EvBegin (r (bs "a")); EvBegin (r (bs "b")); EvEnd 0; EvEnd 1; EvBegin (r (bs "a")); EvEnd 3; EvEnd 2]) =
+  [[]; [KRepeat 2]; []; []; []; [KRepeat 3]; []; []].
+Proof. vm_compute. reflexivity. Qed.
+(* BidiStream over HTTP/1.1, HTTP/1.1 announced: silent, and the RPC handler is told HTTP/2;
+   HTTP/2 announced: flagged *)
+Definition ex_h1 (v : version) := {| a_version := v; a_get := false; a_protocol := PConnect; a_codec := CProto;
+                                     a_compression := ZIdentity; a_tls := Plain |}.
+Definition ex_h1_client := {| c_version := V1; c_shape := ConnectStream; c_codec := CProto;
+                              c_compression := ZIdentity; c_tls := Plain |}.
+Example ex_bidi_h1 :
+  match snd (server Z.quot [] ProcBidiStream (with_expect (bs "t") (ex_h1 V1) (render ex_h1_client))) with
+  | Served _ f _ seen => f = [] /\ proto_major seen = 2 | Rejected => False end /\
+  match snd (server Z.quot [] ProcClientStream (with_expect (bs "t") (ex_h1 V1) (render ex_h1_client))) with
+  | Served _ f _ seen => f = [] /\ proto_major seen = 1 | Rejected => False end /\
+  feedback_of (snd (server Z.quot [] ProcBidiStream (with_expect (bs "t") (ex_h1 V2) (render ex_h1_client)))) = [KVersion 2 1].
+Proof. vm_compute. repeat split. Qed.
